@@ -215,6 +215,13 @@ pub fn run(ctx: &Ctx, rep: &mut Report) {
             rep.count("let.function-valued");
             continue;
         }
+        // the call-depth limit is the one context an expression can observe (C18): a
+        // sub-expression that recurses close to the limit succeeds at statement level and
+        // fails inside a callback of the context, which is not a side effect on values
+        if a != b && (a.starts_with("(err depth") || b.starts_with("(err depth")) {
+            rep.count("let.depth-limit-band");
+            continue;
+        }
         rep.case(&bound, true);
         if a != b {
             rep.finding("oracle", "let-abstraction-differs", &bound, &format!("direct={} bound={}", short(a), short(b)), "c02.let-abstraction");
